@@ -1249,7 +1249,18 @@ func x5ObjAdapter(t *Trace, env *Env) *Mismatch {
 		case "tamper":
 			off, n := o.tbsOff, len(o.tbs)
 			if st.Str("region") == "sig" {
-				off, n = o.sigOff, len(o.sig)
+				// the signature field as it is encoded: the BIT STRING's identifier, length and unused-bits octets belong to it
+				// (a changed unused-bits count is a changed signature value)
+				hdr := 3
+				if cl := len(o.sig) + 1; cl >= 256 {
+					hdr = 5
+				} else if cl >= 128 {
+					hdr = 4
+				}
+				if o.sigOff-hdr < o.tbsOff+len(o.tbs) || o.der[o.sigOff-hdr] != 0x03 || o.der[o.sigOff-1] != 0x00 {
+					panic("harness: x509obj: the signature is not the contents of a BIT STRING with no unused bits at the tail of the encoding")
+				}
+				off, n = o.sigOff-hdr, len(o.sig)+hdr
 			}
 			cls, mod, mask := st.Int("cls"), st.Int("mod"), byte(st.Int("mask"))
 			allowed := jstrs(st["allowed"])
